@@ -322,6 +322,12 @@ def check(cx):
                    "no-flush:flush-checkpoints", "", "flush still checkpoints", "Database::flush lost its checkpoint under no-flush")
 
 
+    # ---- C09.8 (construct shared with C13.4) ----------------------------------------------------------------------------
+    from . import c13
+    cx.include(c13, {"C13.4"}, "C09.8", "shared with C13.4: VACUUM clears the persisted aborted bitmap only up to the horizon up to which it removed "
+               "the aborted tuples from the trees; a bit cleared above that horizon makes the rolled-back rows visible after the next reopen", floor=6)
+
+
 def _drops_silently(f):
     """returns () and its only effect sits under a guard with an empty else"""
     ret_unit = f.locals[0] == "()"
